@@ -114,53 +114,70 @@ def split(data, sizes):
     return out
 
 
-def standard_entry(chunks, strategies, gap=0):
-    """chunks: list of byte strings (the content split); -> (entry bytes, used strategies)"""
+def standard_entry(chunks, strategies, gap=0, order=None):
+    """chunks: list of byte strings (the content split); order: storage order of the blocks (a permutation of their indices; the
+    block table stays in content order and carries each block's offset); -> (entry bytes, used strategies)"""
     nb = len(chunks)
     hsize = (24 + 8 * nb + 127) // 128 * 128
-    blocks = b""
-    table = b""
+    packed = []
     used = []
     for c, s in zip(chunks, strategies):
         blk, u = pack_block(c, s)
         used.append(u)
-        table += struct.pack("<iHH", len(blocks), len(blk), len(c))
-        blocks += blk + b"\xCD" * (gap * 128)
+        packed.append(blk)
+    blocks = b""
+    offs = [0] * nb
+    for i in (order if order is not None else range(nb)):
+        offs[i] = len(blocks)
+        blocks += packed[i] + b"\xCD" * (gap * 128)
+    table = b"".join(struct.pack("<iHH", offs[i], len(packed[i]), len(chunks[i])) for i in range(nb))
     total = sum(len(c) for c in chunks)
     hdr = struct.pack("<IiI", hsize, 2, total) + struct.pack("<II", 0, (len(blocks) + 127) // 128) + struct.pack("<I", nb) + table
     return hdr.ljust(hsize, b"\0") + blocks, used
 
 
-def texture_entry(header, mips, strategies_fn):
-    """header: bytes of the .tex header (kept verbatim); mips: list of lists of chunks.
+def texture_entry(header, mips, strategies_fn, mip_order=None, mip_gap=0):
+    """header: bytes of the .tex header (kept verbatim); mips: list of lists of chunks. mip_order: storage order of the mips after
+    the first (mip 0 directly follows the header, its offset is the header length); mip_gap: unused 128-byte units between mips.
     -> (entry, expected_output, used)"""
     nl = len(mips)
     nsub = sum(len(m) for m in mips)
     hsize = (24 + 20 * nl + 2 * nsub + 127) // 128 * 128
-    data = bytearray(header)
-    lods = b""
-    sizes = b""
+    packed = []
     used = []
-    bi = 0
     expected = bytearray(header)
     for m in mips:
-        start = len(data)
-        dec = 0
+        blks = []
         for c in m:
             blk, u = pack_block(c, strategies_fn())
             used.append(u)
-            sizes += struct.pack("<h", len(blk))
-            data += blk
-            dec += len(c)
+            blks.append(blk)
             expected += c
-        lods += struct.pack("<IIIII", start, len(data) - start, dec, bi, len(m))
+        packed.append(blks)
+    data = bytearray(header)
+    starts = [0] * nl
+    storage = [0] + list(mip_order if mip_order is not None else range(1, nl)) if nl else []
+    for k, mi in enumerate(storage):
+        if k:
+            data += b"\xCD" * (128 * mip_gap)
+        starts[mi] = len(data)
+        for blk in packed[mi]:
+            data += blk
+    lods = b""
+    sizes = b""
+    bi = 0
+    for mi, m in enumerate(mips):
+        lods += struct.pack("<IIIII", starts[mi], sum(len(b) for b in packed[mi]), sum(len(c) for c in m), bi, len(m))
+        sizes += b"".join(struct.pack("<h", len(b)) for b in packed[mi])
         bi += len(m)
     hdr = struct.pack("<IiI", hsize, 4, len(expected)) + struct.pack("<II", 0, 0) + struct.pack("<I", nl) + lods + sizes
     return hdr.ljust(hsize, b"\0") + bytes(data), bytes(expected), used
 
 
-def model_entry(version, stack, runtime, lods, vdecl_num, material_num, num_lods, streaming, edge, split_fn, strategies_fn):
-    """stack, runtime: bytes; lods: list of 3 (vertex_bytes, index_bytes); split_fn(data)->chunks.
+def model_entry(version, stack, runtime, lods, vdecl_num, material_num, num_lods, streaming, edge, split_fn, strategies_fn, storage=None, sec_gap=0):
+    """stack, runtime: bytes; lods: list of 3 (vertex_bytes, index_bytes); split_fn(data)->chunks. storage: order in which the
+    sections' block runs are laid out (names; the block-size table and the block indices stay in section order, every section carries
+    its own offset); sec_gap: unused 128-byte units between the runs.
     -> (entry, sections dict, used)"""
     sections = [("stack", stack), ("runtime", runtime)]
     for i in range(3):
@@ -170,20 +187,28 @@ def model_entry(version, stack, runtime, lods, vdecl_num, material_num, num_lods
     sizes = []
     used = []
     info = {}
+    runs = {}
     bindex = 0
     for name, sec in sections:
         chunks = split_fn(sec) if sec else []
-        off = len(data)
         start_block = bindex
         comp = 0
+        run = b""
         for c in chunks:
             blk, u = pack_block(c, strategies_fn())
             used.append(u)
             sizes.append(len(blk))
-            data += blk
+            run += blk
             comp += len(blk)
             bindex += 1
-        info[name] = dict(unc=len(sec), comp=comp, off=off, index=start_block, num=len(chunks))
+        runs[name] = run
+        info[name] = dict(unc=len(sec), comp=comp, off=0, index=start_block, num=len(chunks))
+    for name in (storage if storage is not None else [n for n, _ in sections]):
+        if runs[name]:
+            if data:
+                data += b"\xCD" * (128 * sec_gap)
+            info[name]["off"] = len(data)
+            data += runs[name]
 
     def mms(field, fmt):
         order = ["stack", "runtime", "v0", "v1", "v2", "e0", "e1", "e2", "i0", "i1", "i2"]
